@@ -6,6 +6,8 @@ P_sig2 == <<  <<"wait", "reset">>, <<"twait">>, <<"set">> >>
 P_sig3 == <<  <<"twait", "wait">>, <<"set", "reset", "set">>, <<"wait">> >>
 P_mon1 == <<  <<"mlock", "mwait", "munlock", "mdone">>, <<"mlock", "mwait", "munlock", "mdone">>, <<"msetloop">> >>
 P_mon2 == <<  <<"mlock", "mtwait", "munlock", "mdone">>, <<"mlock", "mwait", "munlock", "mdone">>, <<"msetloop">>, <<"mset">> >>
+P_mon3 == <<  <<"mlock", "mtwait", "munlock">>, <<"mlock", "mtwait", "munlock">>, <<"mset">> >>
+P_sig4 == <<  <<"twait">>, <<"twait">>, <<"reset", "set">> >>
 P_mtx1 == <<  <<"lock", "lock", "unlock", "tlu", "unlock">>, <<"tlu", "lock", "unlock">>, <<"lock", "unlock">> >>
 P_sem1 == <<  <<"swait", "ssignal">>, <<"swait", "ssignal">>, <<"stwait", "ssignal">> >>
 P_sem2 == <<  <<"swait">>, <<"strywait", "ssignal">>, <<"stwait", "ssignal">> >>
